@@ -1217,22 +1217,80 @@ func guardedTrims(x *Ctx) {
 	if f == nil {
 		return
 	}
+	n, bad := guardedTrimsIn(x, f)
+	x.C.Obl("C09.P5", "guarded-trim:Parse", x.pos(f), fmt.Sprintf("each of the %d expressions that drop characters at both ends of a string is reached only where the string is known to be long enough", n), bad == "" && n >= 1, dedupLines(bad))
+	// the same for every other library function that cuts a constant number of characters off the end of a string
+	// (s[:len(s)-k], s[j:len(s)-k]): found on the SSA form, decided on the paths of the function
+	nO, badO, nf := 0, "", 0
+	for _, g := range x.P.ModuleFuncs() {
+		if !x.P.IsLibrary(g) || g == f || len(g.Blocks) == 0 || g.Parent() == f {
+			continue
+		}
+		nf++
+		has := false
+		for _, b := range g.Blocks {
+			for _, in := range b.Instrs {
+				sl, ok := in.(*ssa.Slice)
+				if !ok || sl.High == nil {
+					continue
+				}
+				if bt, ok := sl.X.Type().Underlying().(*types.Basic); !ok || bt.Kind() != types.String {
+					continue
+				}
+				if bo, ok := sl.High.(*ssa.BinOp); ok && bo.Op == token.SUB {
+					if c, ok := bo.Y.(*ssa.Const); ok && c.Value != nil {
+						has = true
+					}
+				}
+			}
+		}
+		if !has {
+			continue
+		}
+		// a new helper is examined on the paths of the functions its code was moved out of (they hold the facts)
+		targets := []*ssa.Function{g}
+		if x.P.IsNewHelper(g) {
+			targets = nil
+			for _, o := range x.P.PathOwners(g) {
+				if o != f && o.Parent() != f {
+					targets = append(targets, o)
+				}
+			}
+		}
+		for _, t := range targets {
+			k, w := guardedTrimsIn(x, t)
+			nO += k
+			badO += w
+		}
+	}
+	x.C.Obl("C09.P5", "guarded-trim:library", "-", fmt.Sprintf("in the %d other library functions each of the %d expressions that cut a constant number of characters off the end of a string is reached only where the string is known to be long enough", nf, nO), badO == "" && nf > 0, dedupLines(badO))
+}
+
+// guardedTrimsIn examines the slice expressions Y[k:len(Y)-m] (k may be left out) of one function on its paths.
+func guardedTrimsIn(x *Ctx, f *ssa.Function) (int, string) {
 	n, bad := 0, ""
 	seen := map[string]bool{}
-	for _, p := range x.paths("C09.P5", f) {
+	for _, p := range x.pathsQuiet(f) {
 		p.InstrsIn(func(in ssa.Instruction, c *paths.Ctx) {
 			sl, ok := in.(*ssa.Slice)
-			if !ok || sl.Low == nil || sl.High == nil {
+			if !ok || sl.High == nil {
 				return
 			}
 			if b, ok := sl.X.Type().Underlying().(*types.Basic); !ok || b.Kind() != types.String {
 				return
 			}
-			lo, hi, y := c.Term(sl.Low), c.Term(sl.High), c.Term(sl.X)
-			if lo == nil || hi == nil || y == nil {
+			hi, y := c.Term(sl.High), c.Term(sl.X)
+			if hi == nil || y == nil {
 				return
 			}
-			k, okk := paths.ConstInt(lo)
+			k, okk := int64(0), true
+			if sl.Low != nil {
+				lo := c.Term(sl.Low)
+				if lo == nil {
+					return
+				}
+				k, okk = paths.ConstInt(lo)
+			}
 			if !okk || hi.Op != "sub" || len(hi.Args) != 2 || hi.Args[0].String() != "len("+y.String()+")" {
 				return
 			}
@@ -1280,7 +1338,7 @@ func guardedTrims(x *Ctx) {
 			}
 		})
 	}
-	x.C.Obl("C09.P5", "guarded-trim:Parse", x.pos(f), fmt.Sprintf("each of the %d expressions that drop characters at both ends of a string is reached only where the string is known to be long enough", n), bad == "" && n >= 1, dedupLines(bad))
+	return n, bad
 }
 
 // optionErrorsAbort (C10.R1): a constructor does not return a token when one of the caller's options failed. In New of
